@@ -351,6 +351,11 @@ def main():
                     entry["counterexample"] = {"args": c["args"], "message": msg[:300], "replayed": False}
         elif r["status"] == "PRE_UNSAT":
             harness_errors.append(f"{j.key}: unable to meet precondition")
+        elif r["status"] == "ERROR" and "CrossHairInternal" in str(r.get("error")):
+            # an internal limitation of the engine on this harness: nothing was decided, which is what inconclusive means
+            inconclusive.append(j.key)
+            entry["error"] = r.get("error")
+            entry["detail"] = "engine error (CrossHairInternal): inconclusive"
         elif r["status"] == "ERROR":
             harness_errors.append(f"{j.key}: worker error: {r.get('error')}")
             entry["error"] = r.get("error")
